@@ -3,3 +3,7 @@
 pub mod refs;
 #[cfg(kani)]
 mod leaf;
+#[cfg(kani)]
+mod wrap_deflate;
+#[cfg(kani)]
+mod gen;
